@@ -4,5 +4,6 @@ CONSTANTS
   Beh = TRUE
   StatusSubs <- SubBoth
   Selections <- SelAll
+  SelStyles <- StyAll
 INVARIANTS Emit
 CHECK_DEADLOCK FALSE
